@@ -8,7 +8,10 @@ import (
 	"github.com/gomodule/redigo/redis"
 )
 
-const redisExpiresAfter = time.Second * 30
+const (
+	redisExpiresAfter   = time.Second * 30
+	redisRequestTimeout = time.Second * 5
+)
 
 // RedisConn is an endpoint connection
 type RedisConn struct {
@@ -66,7 +69,10 @@ func (conn *RedisConn) Send(msg string) error {
 	if conn.conn == nil {
 		addr := fmt.Sprintf("%s:%d", conn.ep.Redis.Host, conn.ep.Redis.Port)
 		var err error
-		conn.conn, err = redis.Dial("tcp", addr)
+		conn.conn, err = redis.Dial("tcp", addr,
+			redis.DialConnectTimeout(redisRequestTimeout),
+			redis.DialReadTimeout(redisRequestTimeout),
+			redis.DialWriteTimeout(redisRequestTimeout))
 		if err != nil {
 			conn.close()
 			return err
